@@ -399,13 +399,42 @@ pub fn run(ctx: &Ctx, prop: &str) -> Report {
         ext.push(1);
         ext.extend_from_slice(&[0u8; 8]);
         run_one(&mut rep, prop, &ext, true);
-        for id in [token::native_mint::id(), token::id(), token_2022::id(), spl_token_2022_interface::native_mint::id(), spl_token_interface::native_mint::id(), Pubkey::default()] {
-            // an account whose mint / owner is one of the well-known keys
-            let mut a = vec![0u8; 165];
-            a[0..32].copy_from_slice(&id.to_bytes());
-            a[32..64].copy_from_slice(&id.to_bytes());
-            a[108] = 1;
-            run_one(&mut rep, prop, &a, true);
+        // plus every address the crate's sources spell out (read from the tree under test at run time)
+        let mined = crate::mined_keys("generic-token/src");
+        rep.count(&format!("corpus:addresses-mined-from-source:{}", mined.len()));
+        let mut ids = vec![token::native_mint::id(), token::id(), token_2022::id(), spl_token_2022_interface::native_mint::id(), spl_token_interface::native_mint::id(), Pubkey::default()];
+        for k in mined {
+            if !ids.contains(&k) {
+                ids.push(k);
+            }
+        }
+        for id in ids {
+            // an account whose mint / owner is one of the well-known keys; a mint whose authorities are
+            for other in [id, Pubkey::new_from_array([9u8; 32])] {
+                let mut a = vec![0u8; 165];
+                a[0..32].copy_from_slice(&id.to_bytes());
+                a[32..64].copy_from_slice(&other.to_bytes());
+                a[64..72].copy_from_slice(&rng.bytes(8));
+                a[108] = 1;
+                run_one(&mut rep, prop, &a, true);
+                a[0..32].copy_from_slice(&other.to_bytes());
+                a[32..64].copy_from_slice(&id.to_bytes());
+                run_one(&mut rep, prop, &a, true);
+                let mut e = a.clone();
+                e[0..32].copy_from_slice(&id.to_bytes());
+                e.push(2);
+                e.extend_from_slice(&[0u8; 6]);
+                run_one(&mut rep, prop, &e, true);
+            }
+            let mut m = vec![0u8; 82];
+            m[0..4].copy_from_slice(&1u32.to_le_bytes());
+            m[4..36].copy_from_slice(&id.to_bytes());
+            m[36..44].copy_from_slice(&rng.bytes(8));
+            m[44] = 9;
+            m[45] = 1;
+            m[46..50].copy_from_slice(&1u32.to_le_bytes());
+            m[50..82].copy_from_slice(&id.to_bytes());
+            run_one(&mut rep, prop, &m, true);
         }
         rep.count("corpus:own-constants");
     }
